@@ -26,7 +26,7 @@ META = {
              "symlinks, observed only). Seeded: random trees (<= 25 files, depth <= 4) with random .styluaignore files drawn "
              "from the implemented pattern subset, random argument lists in one spelling style, random flag / glob "
              "combinations. A case is distinct by files + argv; it is non-trivial when at least one judged file was selected "
-             "and processed and at least one judged file was filtered out and left untouched."),
+             "and processed and at least one judged file was filtered out and left untouched. Also pinned: -g patterns with a directory part (anchored at the working directory) x relative / absolute / mixed argument spellings."),
     "assumptions": [
         "model encodes only documented rules; undocumented combinations (ignore files in ancestors of a walked root, an "
         "explicitly named directory that is itself ignored or hidden, hidden explicit file with --respect-ignores, ignore "
